@@ -177,7 +177,7 @@ def ob_check_attr(run, interp):
             allowed, twin, twin_name = spec.decision(cfgt, perm, name_t, has, safe)
             if r.outcome == "return":
                 got = V.term(r.value)
-                ok = spec.result_ok(allowed, twin, twin_name, name_t, got)
+                ok = spec.result_ok(allowed, twin, twin_name, name_t, got, has(name_t))
                 kind = "returned a name the policy does not permit"
             elif isinstance(r.exc, AttributeError):
                 ok = spec.refusal_ok(allowed, twin)
@@ -280,7 +280,8 @@ name, perm = cex["name"], cex["perm"]
 ok_names = set()
 if cfg[perm]:
     if allowed(cfg, name): ok_names.add(name)
-    if twin(cfg, o, name): ok_names.add(cfg["exposed_prefix"] + name)
+    # the twin stands in only for a name that cannot be accessed as such
+    if twin(cfg, o, name) and not (allowed(cfg, name) and hasattr(o, name)): ok_names.add(cfg["exposed_prefix"] + name)
 try:
     got = Connection._check_attr(conn, o, name, perm)
     bad = got not in ok_names
@@ -380,7 +381,7 @@ def ob_access_attr(run, interp):
                         what = "default accessor: expected one %s, log %r" % (acc, touches)
                         cond = None
                     else:
-                        cond = spec.result_ok(allowed, twin, twin_name, name_t, V.term(acts[0][2]))
+                        cond = spec.result_ok(allowed, twin, twin_name, name_t, V.term(acts[0][2]), has(name_t))
                 elif isinstance(r.exc, AttributeError):
                     # refused by the policy, or the permitted target does not exist on the object
                     missing = z3.Or(z3.Not(has(name_t)), z3.Not(has(twin_name)))
@@ -449,7 +450,7 @@ args = ("VALUE",) if op == "_rpyc_setattr" else ()
 ok_names = set()
 if cfg[perm]:
     if allowed(cfg, name): ok_names.add(name)
-    if twin(cfg, o, name): ok_names.add(cfg["exposed_prefix"] + name)
+    if twin(cfg, o, name) and not (allowed(cfg, name) and name in ATTRS): ok_names.add(cfg["exposed_prefix"] + name)
 del log[:]
 try:
     Connection._access_attr(conn, o, wire, args, op, perm, default)
@@ -555,7 +556,7 @@ def ob_handlers(run, interp):
                 for req in requested:
                     allowed, twin, twin_name = spec.decision(cfgt, perm, req, has, safe)
                     if e[0] == acc:
-                        alts.append(spec.result_ok(allowed, twin, twin_name, req, t))
+                        alts.append(spec.result_ok(allowed, twin, twin_name, req, t, has(req)))
                     if e[0] == "getattr":
                         # existence probes made by the policy check itself
                         alts.append(z3.Or(t == req, t == twin_name))
@@ -567,7 +568,7 @@ def ob_handlers(run, interp):
                     alts = []
                     for req in requested:
                         allowed, twin, twin_name = spec.decision(cfgt, "allow_getattr", req, has, safe)
-                        alts.append(spec.result_ok(allowed, twin, twin_name, req, t))
+                        alts.append(spec.result_ok(allowed, twin, twin_name, req, t, has(req)))
                     conds.append(z3.Or(*alts))
             n[0] += 1
             holds, m = core.with_ctx(c, c.must_hold, z3.And(*conds) if conds else z3.BoolVal(True))
@@ -631,7 +632,7 @@ for r in req:
     probes.update([r, cfg["exposed_prefix"] + r])
     if cfg[perm]:
         if allowed(cfg, r): ok.add(r)
-        if twin(cfg, target, r): ok.add(cfg["exposed_prefix"] + r)
+        if twin(cfg, target, r) and not (allowed(cfg, r) and r in ATTRS): ok.add(cfg["exposed_prefix"] + r)
 del log[:]
 try:
     if h in ("_handle_getattr", "_handle_delattr"): f(conn, o, name)
